@@ -9,6 +9,11 @@ def run(patch, ids):
         repo = os.path.join(tmp, 'repo'); vd = os.path.join(tmp, 'verif')
         subprocess.check_call(['rsync', '-a', '--exclude', 'target', '--exclude', '.git', '/repo/', repo + '/'])
         os.makedirs(vd); shutil.copy(os.path.join(VERIF, 'known_findings.json'), vd); shutil.copytree(os.path.join(VERIF, 'refdata'), os.path.join(vd, 'refdata'))
+        if patch.endswith('.gz'):
+            import gzip
+            plain = os.path.join(tmp, 'patch.diff')
+            open(plain, 'wb').write(gzip.open(patch).read())
+            patch = plain
         if subprocess.run(['patch', '-p1', '-s', '-i', patch], cwd=repo).returncode != 0:
             return None
         env = dict(os.environ, VERIF_REPO=repo, VERIF_DIR=vd)
@@ -29,11 +34,15 @@ def main():
     m = json.load(open(os.path.join(VERIF, 'MANIFEST.json')))
     ids = [c['property_id'] for c in m['checks']]
     out = {}
-    pats = sorted(glob.glob(os.path.join(VERIF, 'selftest/neutral/*.diff'))) 
-    for p in pats:
-        name = os.path.basename(p)[:-5]
+    pats = sorted(glob.glob(os.path.join(VERIF, 'selftest/neutral/*.diff')) + glob.glob(os.path.join(VERIF, 'selftest/neutral/*.diff.gz')))
+    from concurrent.futures import ThreadPoolExecutor
+    def one(p):
+        name = os.path.basename(p).split('.diff')[0]
         c = run(p, ids)
-        out[name] = c
         print(name, '->', 'PATCH FAILED' if c is None else (c if c else 'silent (ok)'), flush=True)
+        return name, c
+    with ThreadPoolExecutor(max_workers=int(os.environ.get('MX_JOBS', '5'))) as ex:
+        for n, c in ex.map(one, pats):
+            out[n] = c
     json.dump(out, open(os.path.join(VERIF, 'selftest/neutral/matrix.json'), 'w'), indent=1)
 main()
